@@ -221,3 +221,6 @@ func TestMain(m *testing.M)   { vf.Main(m, "C12") }
 func TestCorpus(t *testing.T) { vf.Corpus(t) }
 func TestProp(t *testing.T)   { vf.RunAll(t) }
 func TestReplay(t *testing.T) { vf.ReplayEnv(t) }
+
+// native fuzz targets (thorough tier): the fuzzer mutates the byte stream that rapid decodes into generator choices
+func FuzzExport(f *testing.F) { vf.FuzzNamed(f, "C12", "export") }
